@@ -77,23 +77,29 @@ struct Graph {
 	std::vector<std::pair<uint32_t, bool> > path;   // (condition node, value taken) in order
 	std::vector<uint32_t> pre;                       // recorded assert() conditions on this path
 	bool tracing = false;
-	void reset_all() { nodes.clear(); cons.clear(); dec.clear(); pos = 0; path.clear(); pre.clear(); }
-	void reset_path() { pos = 0; path.clear(); pre.clear(); }
+	// Values handed to GLM are (epoch << 16 | node id): a value that was never written in this execution (GLM reading an
+	// uninitialised object, or a stale stack slot from an earlier path) fails the epoch check instead of aliasing a node.
+	uint32_t epoch = 1;
+	uint32_t enc(uint32_t id) const { return (epoch << 16) | id; }
+	uint32_t undo(uint32_t raw) const { if ((raw >> 16) != epoch || (raw & 0xffffu) >= nodes.size()) throw Untraceable("uninitialised value used"); return raw & 0xffffu; }
+	void reset_all() { nodes.clear(); cons.clear(); dec.clear(); pos = 0; path.clear(); pre.clear(); epoch = (epoch % 0xfffeu) + 1; }
+	void reset_path() { pos = 0; path.clear(); pre.clear(); epoch = (epoch % 0xfffeu) + 1; }
+	// operands arrive tagged (see enc/undo); the result is tagged
 	uint32_t mk(Op op, Kind k, uint32_t a = 0, uint32_t b = 0, uint32_t c = 0, uint64_t bits = 0, Kind k2 = NKIND) {
-		Node n{op, k, k2, a, b, c, bits};
-		if (op != VAR && op != CST) {   // operands must be existing nodes: anything else is a value read before it was written
-			uint32_t lim = (uint32_t)nodes.size(); bool bad = a >= lim;
-			if ((op >= ADD && op <= LDEXP) || (op >= LT && op <= NE) || op == LAND || op == LOR || op == FMA) bad = bad || b >= lim;
-			if (op == FMA) bad = bad || c >= lim;
-			if (bad) throw Untraceable("uninitialised value used as an operand");
+		if (op != VAR && op != CST) {
+			a = undo(a);
+			if ((op >= ADD && op <= LDEXP) || (op >= LT && op <= NE) || op == LAND || op == LOR || op == FMA) b = undo(b);
+			if (op == FMA) c = undo(c);
 		}
+		Node n{op, k, k2, a, b, c, bits};
 		auto it = cons.find(n);
-		if (it != cons.end()) return it->second;
+		if (it != cons.end()) return enc(it->second);
 		uint32_t id = (uint32_t)nodes.size();
 		if (id >= 60000u) throw Untraceable("node limit exceeded");
-		nodes.push_back(n); cons.emplace(n, id); return id;
+		nodes.push_back(n); cons.emplace(n, id); return enc(id);
 	}
-	bool decide(uint32_t cond) {
+	bool decide(uint32_t rawcond) {
+		uint32_t cond = undo(rawcond);
 		for (auto const& p : path) if (p.first == cond) return p.second;     // same condition, same answer
 		Node const& n = nodes[cond];
 		if (n.op == CST) return n.bits != 0;
@@ -223,7 +229,7 @@ static_assert(sizeof(sf32) == 4 && sizeof(sf64) == 8 && sizeof(si64) == 8 && siz
 static_assert(std::is_trivially_default_constructible<sf32>::value, "Sym must be trivially default constructible (anonymous unions in glm::vec)");
 
 // assert() support: the condition is recorded as a precondition of the current path, not forked on.
-inline void vassert(SymBool b) { if (G().tracing) G().pre.push_back(b.id); }
+inline void vassert(SymBool b) { if (G().tracing) G().pre.push_back(G().undo(b.id)); }
 inline void vassert(bool) {}
 template<class T> inline void vassert(T const& x) { (void)x; }
 
